@@ -47,4 +47,5 @@ var Checks = map[string]func(env *Env, rep *Report){
 	"C01": RunC01,
 	"C02": RunC02,
 	"C03": RunC03,
+	"C05": RunC05,
 }
